@@ -777,10 +777,10 @@ def run(ctx):
     cases = corpus_cases()
     ncorpus = len(cases)
     cases += fixed_cases()
-    nrand = 720 if ctx.tier == "quick" else 2700
+    nrand = 720 if ctx.tier == "quick" else 5400
     for i in range(nrand):
         cases.append(gen_case(rng, f"r{ctx.seed}-{i}", ctx.tier, algo=ALGOS[i % 6]))
-    _add_train(rng, cases, 56 if ctx.tier == "quick" else 280)
+    _add_train(rng, cases, 56 if ctx.tier == "quick" else 420)
     ctx.cov["rule"] = ("a case is (algorithm, w_shape, sketch size, delta, lr, gradient history of length 1..20 [32 thorough] in dimension "
                        "2..8 [12]); fixed witnesses first, then seeded random histories (gauss, per-step scaled, zero steps, small integers, "
                        "signed basis vectors, sparse, rank < sketch size (float / integer / scaled), rank = sketch size). Non-trivial: "
